@@ -20,7 +20,7 @@ RULE = ("case = generated enum (idents, explicit/implicit values, renames incl. 
 
 PROFILE = S.profile(renames=0.5, dups=0.1, attrs=0.1, cfg_off=0.0, sizes=[("small", 95), ("medium", 5)],
                     orders=["identity"])
-ARRANGE = ["both", "by_value", "by_name", "by_value_swap", "by_name_swap", "both_swap", "as_is", "reverse", "by_name_dup", "by_value_rotate", "by_name_rotate", "prefix_pair_desc", "prefix_pair_asc"]
+ARRANGE = ["both", "by_value", "by_name", "by_value_swap", "by_name_swap", "both_swap", "as_is", "reverse", "by_name_dup", "by_value_rotate", "by_name_rotate", "prefix_pair_desc", "prefix_pair_asc", "utf16_pair_asc", "utf16_pair_desc"]
 FLAGS = [["name", "value"], ["value"], ["name"], ["value", "name"], ["name"], ["value"], [], None]
 
 
@@ -55,6 +55,30 @@ def fixed_cases(tier):
                 if min(vals) < lo or max(vals) > hi:
                     continue
                 out.append({"descent_after": {"repr": r, "vals": vals}})
+    # leading implicit variants followed by a smaller explicit one: A, B, C = -5, D
+    for r in ("i8", "i16", "i32", "i64", "isize", "i128"):
+        for decl in ([None, None, "-5", None], [None, "-1"], [None, None, None, "1", None], ["3", None, None, "4"]):
+            out.append({"leading_implicit": {"repr": r, "decl": decl}})
+    return out
+
+
+def run_leading_implicit(case):
+    out = J.Outcome()
+    d = case["leading_implicit"]
+    spec = {"repr": d["repr"], "vis": "pub", "ident": "E", "enum_attrs": [],
+            "variants": [{"ident": "V%d" % i, "disc": x} for i, x in enumerate(d["decl"])]}
+    m = M.RefEnum(spec)
+    if len(set(m.values)) != m.n:
+        return out
+    cfg = {"feats": [{"f": "sorted", "params": [["value", None]]}], "groups": [1], "pos": ["pre"]}
+    want = all(m.values[i] < m.values[i + 1] for i in range(m.n - 1))
+    ok, _err = J.accepts(E.enum_item_text(spec, cfg))
+    if ok != want:
+        out.violate("sorted(value) verdict differs from the declaration's order", declaration=d, values=m.values,
+                    expected="compiles" if want else "rejected")
+    out.nontrivial = True
+    out.fingerprint = J.fp("leading_implicit", d)
+    out.sample = {"leading_implicit": d, "values": m.values}
     return out
 
 
@@ -146,6 +170,17 @@ def arrange(case):
             items[j]["name"] = nm
             items[j]["rename"] = nm
             items[j]["rename_raw"] = False
+    if arr.startswith("utf16_pair") and len(items) >= 2:
+        # byte order and UTF-16 code-unit order disagree between U+E000..U+FFFF and the supplementary planes
+        items.sort(key=lambda x: nkey(x["name"]))
+        k = case["swap_at"] % (len(items) - 1)
+        base = items[k]["name"]
+        lowb, highb = base + ["\uff21", "\ue000", "\ufffd"][(case["swap_at"] // 3) % 3], base + ["\U0001f980", "\U00010000", "\U0010ffff"][(case["swap_at"] // 11) % 3]
+        first, second = (lowb, highb) if arr.endswith("_asc") else (highb, lowb)
+        for j, nm in ((k, first), (k + 1, second)):
+            items[j]["name"] = nm
+            items[j]["rename"] = nm
+            items[j]["rename_raw"] = False
     if arr == "by_name_dup" and len(items) >= 2:
         # two adjacent variants with EQUAL names (not strictly ascending); the empty string is a name like any other
         k = case["swap_at"] % (len(items) - 1)
@@ -213,6 +248,8 @@ def run_case(case):
         return run_descent(case)
     if "descent_after" in case:
         return run_descent_after(case)
+    if "leading_implicit" in case:
+        return run_leading_implicit(case)
     out = J.Outcome()
     s2 = arrange(case)
     m = M.RefEnum(s2)
